@@ -15,8 +15,10 @@
   * `c04_eval_needs_interpreter` without an interpreter it does (the documented panic) — the hypothesis
                          is not idle.
 
-  NOT proved: the IF direction of the Sentence iff (`c04_sentence_complete_STATEMENT`): it is C01's
-  completeness.  The harness's derivation oracle decides it on every run (bounded exploration).
+  The IF direction of the Sentence iff is proved in Props/C01C.lean for the monotone fragment
+  (`c01_sentence_complete_parse`: whenever Parse answers and a derivation consumes the whole input, it
+  succeeds; with `c02_terminates` it does answer).  Outside that fragment the harness's derivation oracle
+  decides it on every run (bounded exploration; known finding D9 for Name/Single over Optional).
 -/
 import ParsleyVerif.Proofs.Sentence
 import ParsleyVerif.Generated.Facts
